@@ -420,3 +420,73 @@ def validate_chunks(chk, name, specdir, module, cfg, rows, header=None, chunk=20
         return fn
     res = parallel([("%s-%d" % (name, i), mk(i, p)) for i, p in enumerate(chunks)], max_workers=max_workers or NCPU)
     return sum(res.values()) - (len(chunks) if header is not None else 0)
+
+
+# ---------------------------------------------------------------- stateful traces made of histories
+
+def validate_histories(chk, name, specdir, module, cfg, header, histories, key_of=None, timeout=1800, heap="4g",
+                       max_rejects=3, extra=()):
+    """Stateful trace validation. `histories` is a list of lists of rows; each history starts with a line the
+    trace spec treats as a reset. The trace spec has variable `l` (next line to consume, 1-based) and consumes a
+    line per step. A history is rejected when an invariant fails right after one of its lines, or when no action
+    of the spec explains one of its lines (search depth stops there). Rejected histories are reported as
+    violations (key_of(history, row, why)), removed, and validation continues. Returns #histories accepted."""
+    hs = list(histories)
+    rejected = 0
+    rounds = 0
+    while True:
+        rounds += 1
+        rows = [header]
+        owner = [None]
+        for hi, h in enumerate(hs):
+            for r in h:
+                rows.append(r)
+                owner.append(hi)
+        rd = scratch(chk.prop, name)
+        write_ndjson(os.path.join(rd, "trace.ndjson"), rows)
+        res = tlc(specdir, module, cfg, workers=1, timeout=timeout, rundir=rd, heap=heap, extra_files=extra)
+        if res.error:
+            raise MachineryError("%s: %s" % (name, res.error))
+        line = None
+        why = None
+        if res.violation:
+            mm = re.match(r"^(\d+)", (res.cex[-1].get("l", "") if res.cex else ""))
+            if not mm:
+                raise MachineryError("%s: violation of %s without l:\n%s" % (name, res.violation, res.out[-2000:]))
+            line = int(mm.group(1)) - 1          # the state after consuming line l-1 violates
+            why = "invariant %s violated after this line" % res.violation
+        elif res.depth < len(rows) + 1:
+            line = res.depth                     # Trace[depth] has no explaining action
+            why = "no action of the specification explains this line"
+        if line is None:
+            chk.cov["states"] += res.distinct
+            chk.cov["transitions"] += res.generated
+            chk.cov["parts"][name] = {"lines": len(rows), "histories": len(hs), "rejected_histories": rejected,
+                                      "distinct": res.distinct, "wall_s": round(res.wall, 1)}
+            log("[trace] %s: %d histories / %d lines accepted, %d rejected (%.1fs, %d rounds)" % (
+                name, len(hs), len(rows), rejected, res.wall, rounds))
+            return len(hs)
+        if line < 1 or line >= len(rows) + 1 or owner[min(line, len(rows)) - 1 if line == len(rows) else line] is None and line != 0:
+            pass
+        idx = min(max(line, 1), len(rows)) - 1
+        hi = owner[idx]
+        if hi is None:
+            raise MachineryError("%s: the header line was rejected (%s):\n%s" % (name, why, res.out[-1500:]))
+        row = rows[idx]
+        hist = hs[hi]
+        key = key_of(hist, row, why) if key_of else "%s" % row.get("a", "?")
+        chk.violation(key, "%s: %s: %s" % (module, why, json.dumps(row)[:500]), {"failing_line": row, "why": why, "history": hist})
+        rejected += 1
+        del hs[hi]
+        if rejected >= max_rejects:
+            log("[trace] %s: stopping after %d rejected histories" % (name, rejected))
+            return len(hs)
+
+
+def split_histories(rows, is_reset):
+    hs = []
+    for r in rows:
+        if is_reset(r) or not hs:
+            hs.append([])
+        hs[-1].append(r)
+    return hs
